@@ -16,6 +16,8 @@
 (*         For a multisig wallet the key tables of its cosigner wallets:   *)
 (*         tree shape, documented path (BIP45 / BIP48) of every key, every *)
 (*         position of the multisig wallet present.                        *)
+(*  object what a caller's key object says about itself before and after  *)
+(*         it was used (wallets created from it, exports, histories).      *)
 (*  restore the key table of a wallet and the tables of the wallets        *)
 (*         restored from its material (for conforming histories).          *)
 (*  key    one key of such a table with the key it hangs under: TLC        *)
@@ -48,7 +50,7 @@ Ask(qs) == [v |-> "need", dev |-> "", devs |-> <<>>, at |-> 0, exp |-> <<>>, nee
 
 (* =============================== trace ==================================== *)
 PosObs(o) == [net |-> o.net, wt |-> o.wt, acct |-> o.acct, ch |-> o.ch, idx |-> o.idx]
-Cfg(c) == [net |-> c.net, wt |-> c.wt, acct |-> c.acct, ms |-> c.ms, cos |-> c.cos, watch |-> c.watch]
+Cfg(c) == [net |-> c.net, wt |-> c.wt, acct |-> c.acct, ms |-> c.ms, cos |-> c.cos, watch |-> c.watch, kwt |-> c.kwt]
 Req(a) == [op |-> a.op, net |-> a.net, wt |-> a.wt, acct |-> a.acct, ch |-> a.ch, n |-> a.n, idx |-> a.idx, form |-> a.form, acctin |-> a.acctin]
 LeafPos(l) == [net |-> l[1], wt |-> l[2], acct |-> l[3], ch |-> l[4], idx |-> l[5]]
 \* rows the wallet lists: <<net, wt, acct, change (-1: none), index, used (0 | 1), depth>>; the address keys are those at key depth
@@ -332,14 +334,25 @@ JKey(r) ==
        ELSE IF ad.why # "" THEN Verdict(ad.why, IF \E w \in alts : alt(w).why = "" THEN <<DevBulkWt>> ELSE <<>>, 0, <<>>)
        ELSE Good
 
+\* ---- the caller's key object: its description before anything was done with it and after an action; reuse: the
+\* configuration under which the wallet made later from the same object with default settings is judged (a trace record
+\* of its own) - it has to be the one the ORIGINAL description gives
+JObject(r) ==
+    IF ObjChanged(r.before, r.after) # {} \/ Len(r.before) # Len(r.after)
+    THEN Verdict("callers-key-object-changed", <<>>, 0, [i \in 1..Len(r.after) |-> IF i > Len(r.before) \/ r.before[i] # r.after[i] THEN r.after[i] ELSE <<>>])
+    ELSE IF r.reuse.wt # "" /\ (r.reuse.wt # ReuseCfg(r.before).wt \/ r.reuse.net # ReuseCfg(r.before).net)
+    THEN Verdict("reuse-wallet-judged-under-another-configuration", <<>>, 0, <<>>)
+    ELSE Good
+
 Judge(r) == CASE r.k = "trace" -> JTrace(r)
+              [] r.k = "object" -> JObject(r)
               [] r.k = "restore" -> JRestore(r)
               [] r.k = "key" -> JKey(r)
               [] OTHER -> Verdict("unknown-record-kind", <<>>, 0, <<>>)
 
 \* reference tables against the documents: BIP44/49/84/45/48 examples
 P0 == [net |-> "bitcoin", wt |-> "segwit", acct |-> 0, ch |-> 0, idx |-> 0]
-C0(ms, watch) == [net |-> "bitcoin", wt |-> "segwit", acct |-> 0, ms |-> ms, cos |-> 2, watch |-> watch]
+C0(ms, watch) == [net |-> "bitcoin", wt |-> "segwit", acct |-> 0, ms |-> ms, cos |-> 2, watch |-> watch, kwt |-> "segwit"]
 Txt(toks) == [i \in 1..Len(toks) |-> toks[i]]
 ASSUME PosTokens(C0(FALSE, FALSE), [P0 EXCEPT !.idx = 17, !.ch = 1, !.acct = 3]) = TextTokens(<<109, 47, 56, 52, 39, 47, 48, 39, 47, 51, 39, 47, 49, 47, 49, 55>>)        \* m/84'/0'/3'/1/17
 ASSUME PosTokens(C0(FALSE, TRUE), [P0 EXCEPT !.idx = 17, !.ch = 1]) = TextTokens(<<77, 47, 49, 47, 49, 55>>)                                                               \* M/1/17
